@@ -301,6 +301,31 @@ func cmdCheck(args []string) int {
 			}
 			obligs = append(obligs, o)
 		}
+		for _, od := range cs.Ordered {
+			if !hasProp(od.Props) {
+				continue
+			}
+			res := v.CheckOrdered(cs, od)
+			keys := make([]string, 0, len(res))
+			for k := range res {
+				keys = append(keys, k)
+			}
+			sort.Strings(keys)
+			for _, k := range keys {
+				j := strings.LastIndex(k, ":")
+				fnName, callee := k[:j], k[j+1:]
+				if *only != "" && !strings.Contains(cs.Label+"."+fnName, *only) {
+					continue
+				}
+				o := &Oblig{Func: cs.Label + "." + fnName, Clause: "maporder(" + callee + ")", Props: od.Props, Goal: BoolLit(len(res[k]) == 0), Sub: strings.Join(res[k], ", ")}
+				if len(res[k]) == 0 {
+					o.Trivial = true
+				} else {
+					o.Goal = False
+				}
+				obligs = append(obligs, o)
+			}
+		}
 		for _, l := range cs.Lemmas {
 			if l.IsAxiom || !hasProp(l.Props) {
 				continue
